@@ -269,6 +269,10 @@ func (ex *Exec) runPath(fn *ssa.Function, forced []int64, cfg RunConfig) {
 	case "infeasible":
 		st.Infeasible++
 		return
+	case "done":
+		// the path ended at an assertion that fails for every value (already recorded as a violation)
+		st.PathsDone++
+		return
 	case "unsupported":
 		st.Inconclusive = append(st.Inconclusive, "unsupported: "+panicMsg)
 		return
